@@ -9,6 +9,7 @@ import (
 	"fmt"
 	"io"
 	"os"
+	"runtime"
 	"strings"
 	"sync"
 
@@ -34,6 +35,9 @@ type Options struct {
 type Result struct {
 	Err    error
 	Panic  string // recovered panic text, "" if none
+	// RuntimeErr: the panic value was a runtime.Error (nil dereference, index
+	// out of range, ...), i.e. a crash rather than a diagnostic
+	RuntimeErr bool
 	Fuel   bool   // fuel ran out (non-termination within the budget)
 	Stdout string
 	Visits []verifsched.Visit
@@ -112,6 +116,9 @@ func guarded(o Options, f func()) (res Result) {
 					res.Fuel = true
 				} else {
 					res.Panic = fmt.Sprint(p)
+					if _, isRT := p.(runtime.Error); isRT {
+						res.RuntimeErr = true
+					}
 					if res.Panic == "" {
 						res.Panic = "(empty panic)"
 					}
